@@ -49,4 +49,49 @@ def windowOf (count : Option Nat) (duration : Option Nat) : Nat × Nat :=
   (match count with | some c => c | none => defaultBucketCount,
    match duration with | some d => d | none => defaultBucketDurationNs)
 
+/-! ### the guards of the builder
+
+`set_buckets`, `set_buckets_for_metric` and `set_quantiles` begin with `if values.is_empty() { return
+Err(BuildError::EmptyBucketsOrQuantiles) }`, `set_bucket_duration` with `if value.is_zero() { return
+Err(BuildError::ZeroBucketDuration) }`; a rejected call yields no builder (`Result<Self, _>` consumes `self`). -/
+
+/-- the emptiness guard, on the length of the slice handed in -/
+def guardNonEmpty (len : Nat) : Bool := len != 0
+
+/-- the guard of `set_bucket_duration`, on the duration in nanoseconds -/
+def guardDuration (ns : Nat) : Bool := ns != 0
+
+/-- `set_buckets(values)`: `Ok` with the bounds stored, or `Err` -/
+def setBucketsChecked (bs : List Int) : Option (List Int) :=
+  if guardNonEmpty bs.length then some bs else none
+
+/-- `set_buckets_for_metric(matcher, values)`: `Err` for empty `values`, else the insertion -/
+def setBucketsForMetricChecked (ovs : List (Matcher × List Int)) (m : Matcher) (bs : List Int) :
+    Option (List (Matcher × List Int)) :=
+  if guardNonEmpty bs.length then some (setBucketsForMetric ovs m bs) else none
+
+/-- a chain of `set_buckets_for_metric(..)?` calls: the override map if every call was accepted -/
+def overridesOfChecked (calls : List (Matcher × List Int)) : Option (List (Matcher × List Int)) :=
+  calls.foldlM (fun ovs c => setBucketsForMetricChecked ovs c.1 c.2) []
+
+/-! ### how a histogram name is exposed
+
+`Inner::render`, distributions loop: `describe_family(name)` gives the description and — only if
+`enable_unit_suffix` — the unit; `get_distribution_type(name)` is asked with the PLAIN sanitised name; then
+`family_name(name, unit)` appends the unit suffix.  The distribution itself was created by the drain with
+`get_distribution(<plain sanitised name>)`. -/
+
+/-- the configuration with the unit-suffix switch -/
+def cfgOfU (unitSuffix : Bool) (global : Option (List Int)) (calls : List (Matcher × List Int)) : Cfg :=
+  { cfgOf global calls with unitSuffix := unitSuffix }
+
+/-- `(family name, # TYPE, distribution)` under which a histogram registered as `name` and described (first) with
+    `unit` is exposed -/
+def exposedFor (unitSuffix : Bool) (global : Option (List Int)) (calls : List (Matcher × List Int)) (name : Str)
+    (unit : Option MUnit) : Str × Str × Dist :=
+  let n := sanitizeMetricName name
+  (PromRender.familyName n (if unitSuffix then unit else none),
+   distType (cfgOfU unitSuffix global calls) n,
+   newDist (cfgOfU unitSuffix global calls) n)
+
 end MetricsVerif.DistBuilder
